@@ -40,14 +40,25 @@ type iterInfo struct {
 }
 
 //go:norace
-func (d *apiDriver) SendReadyOk() { d.readyOk++; d.sim.record(EvReadyOk, 0) }
+func (d *apiDriver) SendReadyOk() {
+	harnessLock()
+	d.readyOk++
+	harnessUnlock()
+	d.sim.record(EvReadyOk, 0)
+}
 
 //go:norace
-func (d *apiDriver) SendInfoString(info string) { d.infos++ }
+func (d *apiDriver) SendInfoString(info string) {
+	harnessLock()
+	d.infos++
+	harnessUnlock()
+}
 
 //go:norace
 func (d *apiDriver) SendIterationEndInfo(depth int, seldepth int, value types.Value, nodes uint64, nps uint64, t time.Duration, pv moveslice.MoveSlice) {
+	harnessLock()
 	d.iterPv = append(d.iterPv, iterInfo{Gen: d.sim.SearchGen, Depth: depth, Nodes: nodes, Pv: pv.StringUci()})
+	harnessUnlock()
 }
 
 //go:norace
@@ -66,8 +77,10 @@ func (d *apiDriver) SendCurrentLine(moveList moveslice.MoveSlice) {}
 
 //go:norace
 func (d *apiDriver) SendResult(bestMove types.Move, ponderMove types.Move) {
+	harnessLock()
 	d.results = append(d.results, apiResult{T: d.sim.Now(), Gen: d.sim.SearchGen, Best: bestMove, Ponder: ponderMove})
-	d.sim.record(EvResult, uint64(len(d.results)))
+	harnessUnlock()
+	d.sim.record(EvResult, 0)
 	d.sim.MixHash([]byte(bestMove.StringUci()))
 }
 
